@@ -228,6 +228,30 @@ def big_grid_checks(par, nsel=12):
     return out
 
 
+def large_grid_checks(par):
+    """N = 1024: no covariance matrix fits, but exactness does not need one -- linearity in the draws, the r0 law and the
+    amplitude of a single unit draw (sqrt(PSD) * del_f at its frequency) hold to rounding of binary64"""
+    out = []
+    N = par["N"]
+    npr = numpy.random.default_rng(par["data_seed"])
+    with warnings.catch_warnings():
+        warnings.simplefilter("ignore")
+        a1, b1, a2, b2 = (npr.normal(size=(N, N)) for _ in range(4))
+        al, be, s = par["alpha"], par["beta"], par["s"]
+        s1, s2 = hi(par, a1, b1), hi(par, a2, b2)
+        sc_ = float(numpy.abs(s1).max())
+        out.append(("screen is a linear function of its draws (N = %d)" % N, float(numpy.abs(hi(par, al * a1 + be * a2, al * b1 + be * b2) - (al * s1 + be * s2)).max() / sc_), 1e-11))
+        out.append(("amplitude scales as r0^(-5/6) for fixed draws (N = %d)" % N, float(numpy.abs(hi(dict(par, r0=par["r0"] * s), a1, b1) - s ** (-5. / 6) * s1).max() / sc_), 1e-11))
+        ky, kx = N // 2 + 3, N // 2 - 7
+        e = numpy.zeros((N, N)); e[ky, kx] = 1.0
+        df = 1.0 / (N * par["delta"])
+        amp = math.sqrt(float(psd_ref(par, numpy.array((kx - N // 2) * df), numpy.array((ky - N // 2) * df)))) * df
+        su = hi(par, e, numpy.zeros((N, N)))
+        out.append(("a single unit draw gives a wave of amplitude sqrt(PSD) del_f (N = %d)" % N, abs(float(numpy.abs(su).max()) / amp - 1), 1e-9))
+        out.append(("zero spatial mean of every realisation (N = %d)" % N, float(abs(s1.mean()) / sc_), 1e-9))
+    return out
+
+
 def grid_refinement_check():
     """structure function of the FFT screen approaches the analytic one at small separations as the grid grows"""
     errs = []
@@ -277,6 +301,16 @@ def falsify(ctx, deep=False):
             worst[clause] = max(worst.get(clause, -1e300), err if math.isfinite(err) else 1e300)
             if not (err <= tol):
                 viols.append({"clause": clause, "error": err, "tolerance": tol, "input": inp})
+    inp = gen_input(rng)
+    inp.update({"N": 1024, "delta": rng.loguniform(0.005, 0.05), "large_grid": True})
+    try:
+        res = large_grid_checks(inp)
+    except Exception as ex:
+        res = [("raised %s: %s" % (type(ex).__name__, str(ex)[:80]), float("inf"), 0.0)]
+    for clause, err, tol in res:
+        worst[clause] = max(worst.get(clause, -1e300), err if math.isfinite(err) else 1e300)
+        if not (err <= tol):
+            viols.append({"clause": clause, "error": err, "tolerance": tol, "input": inp})
     if deep:
         e = grid_refinement_check()
         worst["structure function error at 2 pixels for N=8,16,32"] = e[-1]
@@ -296,7 +330,7 @@ def replay(payload):
         return False
     if "errors" in v["input"]:
         e = grid_refinement_check(); print("  errors", e); return e[2] < e[1] < e[0]
-    bad = [(c, e, t) for c, e, t in (big_grid_checks(v["input"]) if v["input"].get("big_grid") else property_checks(v["input"])) if not (e <= t)]
+    bad = [(c, e, t) for c, e, t in (big_grid_checks(v["input"]) if v["input"].get("big_grid") else (large_grid_checks(v["input"]) if v["input"].get("large_grid") else property_checks(v["input"]))) if not (e <= t)]
     for c, e, t in bad:
         print("  clause %r: error %g > %g" % (c, e, t))
     return not bad
